@@ -33,6 +33,8 @@ def props_of(func, clause, kind, explicit=None):
         if "_read_asn1_header" in f or "_read_asn1_boolean" in f or "peek_header" in f or "read_boolean" in f:
             return {"C07", "C04"}
         return {"C07"}
+    if kind == "frame-static":
+        return {"C19"}
     if f.startswith("_messages") or f.startswith("specs.sess"):
         if kind == "raises-unexpected":
             return {"C05"}
@@ -185,6 +187,18 @@ def run_property(pid, tier):
             instances.append(o)
             solver_s += o["time"]
             by_name.setdefault(o["name"], []).append(o)
+    # ---- static frame obligations (C19): discharged syntactically on the ASTs of the working tree
+    if reg.get("static") == "frames":
+        from pyvc.frontend import Program
+        from pyvc import frames
+        t1 = time.time()
+        for fo in frames.analyse(Program(os.environ.get("SANSLDAP_SRC"))):
+            o = {"name": fo["name"], "kind": "frame-static", "status": fo["status"], "time": 0.0, "backend": "syntactic frame analysis (pyvc.frames)",
+                 "lineno": 0, "clause": fo["rule"] + (": " + fo["detail"] if fo["detail"] else ""), "function": fo["where"], "model": None}
+            instances.append(o)
+            by_name.setdefault(o["name"], []).append(o)
+        func_rows.append({"function": "pyvc.frames.analyse (all repository modules)", "obligations": sum(1 for o in instances if o["kind"] == "frame-static"),
+                          "discharged": sum(1 for o in instances if o["kind"] == "frame-static" and o["status"] == "proved"), "seconds": round(time.time() - t1, 2)})
     proved_names = sorted(n for n, os_ in by_name.items() if all(o["status"] == "proved" for o in os_))
     if update_baseline:
         baseline_all[pid] = proved_names
